@@ -149,6 +149,7 @@ def opVecD (op : String) (x y : List Float) (s : Float) (m : Nat) : String :=
   | "CDF" | "CDFInPlace" => vc (cdf x)
   | "Validate" => stat (validate x s)
   | "LogValidate" => stat (logValidate x s)
+  | "Log2Validate" => stat (log2Validate x s)
   | _ => "bad-op"
 
 def opVecF (op : String) (x y : List Float32) (s : Float32) (m : Nat) : String :=
@@ -181,6 +182,7 @@ def opVecF (op : String) (x y : List Float32) (s : Float32) (m : Nat) : String :
   | "CDF" => vc (cdf x)
   | "Validate" => stat (validate x s)
   | "LogValidate" => stat (logValidate x s)
+  | "Log2Validate" => stat (log2Validate x s)
   | _ => "bad-op"
 
 def opVecI (k : Nat) (op : String) (x y : List Int) (m : Nat) : String :=
